@@ -11,7 +11,7 @@ PROPERTY = 'C05'
 META = {
     'level': 'exploration',
     'technique': 'runtime monitors on request histories: before/after state snapshot equality for refused requests, failure-code oracle, read-back + full-sweep readability oracle after acknowledged writes',
-    'text': 'From random tag states the simulator receives requests that straddle every bound (index len-1/len/len+1, zero counts, counts beyond the tag, index+count past the end, fragment '
+    'text': 'A deterministic matrix covers every (tag type, wire type) pair with small values, the value boundaries of every allowed pair at every width, and Set Attribute Single payloads one byte / one element shorter and longer than the attribute. From random tag states the simulator receives requests that straddle every bound (index len-1/len/len+1, zero counts, counts beyond the tag, index+count past the end, fragment '
             'offsets beyond the range), name unknown tags / classes / instances / attributes, use every (source type, tag type) pair inside and outside the compatibility relation, and - for '
             'every allowed pair - carry the extreme values of the source type into narrower or differently signed tags. A refused request (CIP status not 0x00/0x06, or a non-zero encapsulation '
             'status) must leave the raw stored values of every tag identical and, for the tag services, carry 0xFF/[0x2105] (range), 0xFF/[0x2107] (type) or 0x05 (unknown). After every '
